@@ -178,7 +178,7 @@ prop("C07", ["tab_writer_symbols", "emit_write_graph", "prov_ring_edges", "sent_
      "guard assignments: tree-edge symbol present iff needed and placed where the reader of that format looks (before '(' in CGsmiles, inside in "
      "OpenSMILES), ring symbol immediately before a new marker iff needed, independent of the node-format flag",
      "that the reader reconstructs the graph from a string of the documented language (C04), DFS and ring-marker allocation, more than 9 open rings",
-     floors={"PROV.ring-marker": 2, "PROV.ring-edges": 5, "TAB.writer-symbols": 2, "EMIT.write_graph": 2, "SIB.S5-format-flag": 1})
+     floors={"EMIT.marker-order": 1, "PROV.ring-marker": 2, "PROV.ring-edges": 5, "TAB.writer-symbols": 2, "EMIT.write_graph": 2, "SIB.S5-format-flag": 1})
 prop("C08", ["emit_format_bonding", "tab_fragment_symbols", "tok_rules", "emit_write_graph", "prov_option_forwarding"],
      "format_bonding only ever extends its accumulator and writes SYM? '[' descriptor[:-1] ']' per descriptor with the symbol of its own order for "
      "orders 0, 2, 3, 4; the fragment reader maps every written symbol back to its order; the tokenizer's descriptor rules incl. `is not None` for the pending order",
